@@ -47,8 +47,24 @@
  *   ctx2 H                 a SECOND context on the same allocator: xmpp_stanza_new_from_string(ctx2, H),
  *                          release, xmpp_ctx_free(ctx2) (expat must use ctx2's allocator as well)
  *                                                                            = ctx2 ok|null live N
- *   end                    release every slot (in index order)                 = end live N
- *                          `ORACLE-FAIL leak n` if N != 0
+ *   gth n k                a fresh context on the same allocator, n global timed handlers added
+ *                          (xmpp_global_timed_handler_add), the first k of them deleted again
+ *                          (xmpp_global_timed_handler_delete), xmpp_ctx_free (which must return the rest)
+ *                                                                            = gth live N
+ *   Connection objects (4 slots c0..c3) and detached stream-management states (4 slots s0..s3): the
+ *   hand-over of SM state BETWEEN connection objects.  Their blocks are kept out of `live N` (the engine
+ *   books the change of the allocator's count across each of these ops on a separate account); the account
+ *   must be back at 0 when every connection is released and every state freed or handed to a connection.
+ *   cnew c                 cc := xmpp_conn_new(ctx)                            = ok live N
+ *   crestore c H           xmpp_conn_restore_sm_state(cc, H)                   = rc n live N
+ *   smget c s              ss := xmpp_conn_get_sm_state(cc)                    = ok|null live N
+ *   smset c s              xmpp_conn_set_sm_state(cc, ss); ss := empty on success = rc n live N
+ *   smfree s               xmpp_free_sm_state(ss); ss := empty                 = ok live N
+ *   crel c                 xmpp_conn_release(cc); cc := empty                  = freed n live N
+ *   end                    release every slot (in index order), every connection, free every state
+ *                                                                            = end live N
+ *                          `ORACLE-FAIL leak n` if N != 0, `ORACLE-FAIL leak-conn n` if the
+ *                          connection account is not back at 0
  *   case                   (line protocol) same clean-up, silently           = case
  *
  * Refusals (no library call is made): = err bad-op | = err novar (source slot empty) | = err busy
@@ -191,6 +207,11 @@ static xmpp_ctx_t *ctx;
 static xmpp_stanza_t *slots[NSLOT];
 static long baseline;
 
+#define NCONN 4
+static xmpp_conn_t *conns[NCONN];
+static xmpp_sm_state_t *sms[NCONN];
+static long conn_blocks; /* blocks booked on the connection account */
+
 static int slotno(const char *tok)
 {
     int n = 0;
@@ -265,8 +286,34 @@ static const char *reserr(int e)
 
 static long live(void)
 {
-    return hmem_live - baseline;
+    return hmem_live - baseline - conn_blocks;
 }
+
+/* `c<d>` / `s<d>` */
+static int smallslot(const char *tok, char pfx)
+{
+    if (tok[0] != pfx || tok[1] < '0' || tok[1] >= '0' + NCONN || tok[2])
+        return -1;
+    return tok[1] - '0';
+}
+
+#define CONN_OP(expr)               \
+    do {                            \
+        long before_ = hmem_live;   \
+        LIB(expr);                  \
+        conn_blocks += hmem_live - before_; \
+    } while (0)
+
+static int gth_fn0(xmpp_ctx_t *c, void *u) { (void)c; (void)u; return 1; }
+static int gth_fn1(xmpp_ctx_t *c, void *u) { (void)c; (void)u; return 1; }
+static int gth_fn2(xmpp_ctx_t *c, void *u) { (void)c; (void)u; return 1; }
+static int gth_fn3(xmpp_ctx_t *c, void *u) { (void)c; (void)u; return 1; }
+static int gth_fn4(xmpp_ctx_t *c, void *u) { (void)c; (void)u; return 1; }
+static int gth_fn5(xmpp_ctx_t *c, void *u) { (void)c; (void)u; return 1; }
+static int gth_fn6(xmpp_ctx_t *c, void *u) { (void)c; (void)u; return 1; }
+static int gth_fn7(xmpp_ctx_t *c, void *u) { (void)c; (void)u; return 1; }
+static const xmpp_global_timed_handler gth_fns[8] = {gth_fn0, gth_fn1, gth_fn2, gth_fn3,
+                                                     gth_fn4, gth_fn5, gth_fn6, gth_fn7};
 
 /* ---------------- dump ---------------- */
 
@@ -462,6 +509,16 @@ static void cleanup(void)
             LIB(xmpp_stanza_release(slots[i]));
             slots[i] = NULL;
         }
+    for (i = 0; i < NCONN; i++) {
+        if (conns[i]) {
+            CONN_OP(xmpp_conn_release(conns[i]));
+            conns[i] = NULL;
+        }
+        if (sms[i]) {
+            CONN_OP(xmpp_free_sm_state(sms[i]));
+            sms[i] = NULL;
+        }
+    }
 }
 
 static void put_stanza(FILE *out, int w, xmpp_stanza_t *s)
@@ -485,6 +542,15 @@ int eng_own(FILE *in, FILE *rout)
 {
     char *line;
     LIB(ctx = xmpp_ctx_new(&own_mem, &hlog_quiet));
+    {
+        /* parser_expat.c serves expat from the allocator of the FIRST context that creates a parser
+           (static mem_ctx): make that the engine's context, so that only `ctx2` ops see a "second" one */
+        xmpp_stanza_t *warm;
+        LIB(warm = xmpp_stanza_new_from_string(ctx, "<warm/>"));
+        if (warm)
+            LIB(xmpp_stanza_release(warm));
+        bypass_count = 0;
+    }
     baseline = hmem_live;
     hmem_fill = 0xA5;
     while ((line = hreadline(in))) {
@@ -535,9 +601,17 @@ int eng_own(FILE *in, FILE *rout)
         if (strcmp(op, "case") == 0 && n == 1) {
             cleanup();
             bypass_count = 0;
+            /* a leak of the previous case was reported at its `end`; start the next one balanced */
+            conn_blocks = 0;
+            baseline = hmem_live;
             fputs("= case\n", out);
         } else if (strcmp(op, "end") == 0 && n == 1) {
             cleanup();
+            if (conn_blocks != 0) {
+                fprintf(out, "ORACLE-FAIL leak-conn %ld\n", conn_blocks);
+                baseline += conn_blocks;
+                conn_blocks = 0;
+            }
             if (live() != 0)
                 fprintf(out, "ORACLE-FAIL leak %ld\n", live());
             report_bypass(out);
@@ -692,6 +766,87 @@ int eng_own(FILE *in, FILE *rout)
             TARGET(1);
             fprintf(out, "= node ref %d par %d prev %d next %d kids %d live %ld\n", t->ref, t->parent != NULL,
                     t->prev != NULL, t->next != NULL, t->children != NULL, live());
+        } else if (strcmp(op, "gth") == 0 && n == 3) {
+            long cnt, del;
+            xmpp_ctx_t *c3;
+            if (!numtok(tok[1], 0, 1, &cnt) || !numtok(tok[2], 0, 1, &del) || cnt > 8 || del > cnt)
+                BAD();
+            LIB(c3 = xmpp_ctx_new(&own_mem, &hlog_quiet));
+            for (i = 0; i < cnt; i++)
+                LIB(xmpp_global_timed_handler_add(c3, gth_fns[i], 1000 + (unsigned long)i, NULL));
+            for (i = 0; i < del; i++)
+                LIB(xmpp_global_timed_handler_delete(c3, gth_fns[i]));
+            LIB(xmpp_ctx_free(c3));
+            fprintf(out, "= gth live %ld\n", live());
+        } else if (strcmp(op, "cnew") == 0 && n == 2) {
+            int c = smallslot(tok[1], 'c');
+            if (c < 0)
+                BAD();
+            if (conns[c]) {
+                fputs("= err busy\n", out);
+                goto done;
+            }
+            CONN_OP(conns[c] = xmpp_conn_new(ctx));
+            fprintf(out, "= %s live %ld\n", conns[c] ? "ok" : "null", live());
+        } else if (strcmp(op, "crestore") == 0 && n == 3) {
+            int c = smallslot(tok[1], 'c');
+            if (c < 0)
+                BAD();
+            HEX(0, 2, 0);
+            if (!conns[c]) {
+                fputs("= err novar\n", out);
+                goto done;
+            }
+            CONN_OP(rc = xmpp_conn_restore_sm_state(conns[c], b[0].p, b[0].n));
+            RC();
+        } else if (strcmp(op, "smget") == 0 && n == 3) {
+            int c = smallslot(tok[1], 'c'), v = smallslot(tok[2], 's');
+            if (c < 0 || v < 0)
+                BAD();
+            if (!conns[c]) {
+                fputs("= err novar\n", out);
+                goto done;
+            }
+            if (sms[v]) {
+                fputs("= err busy\n", out);
+                goto done;
+            }
+            CONN_OP(sms[v] = xmpp_conn_get_sm_state(conns[c]));
+            fprintf(out, "= %s live %ld\n", sms[v] ? "ok" : "null", live());
+        } else if (strcmp(op, "smset") == 0 && n == 3) {
+            int c = smallslot(tok[1], 'c'), v = smallslot(tok[2], 's');
+            if (c < 0 || v < 0)
+                BAD();
+            if (!conns[c] || !sms[v]) {
+                fputs("= err novar\n", out);
+                goto done;
+            }
+            CONN_OP(rc = xmpp_conn_set_sm_state(conns[c], sms[v]));
+            if (rc == XMPP_EOK)
+                sms[v] = NULL;
+            RC();
+        } else if (strcmp(op, "smfree") == 0 && n == 2) {
+            int v = smallslot(tok[1], 's');
+            if (v < 0)
+                BAD();
+            if (!sms[v]) {
+                fputs("= err novar\n", out);
+                goto done;
+            }
+            CONN_OP(xmpp_free_sm_state(sms[v]));
+            sms[v] = NULL;
+            fprintf(out, "= ok live %ld\n", live());
+        } else if (strcmp(op, "crel") == 0 && n == 2) {
+            int c = smallslot(tok[1], 'c');
+            if (c < 0)
+                BAD();
+            if (!conns[c]) {
+                fputs("= err novar\n", out);
+                goto done;
+            }
+            CONN_OP(rc = xmpp_conn_release(conns[c]));
+            conns[c] = NULL;
+            fprintf(out, "= freed %d live %ld\n", rc, live());
         } else if (strcmp(op, "zround") == 0 && n == 2) {
             const char *res;
             HEX(0, 1, 0);
@@ -721,7 +876,9 @@ int eng_own(FILE *in, FILE *rout)
         }
     }
     cleanup();
-    if (live() != 0)
+    if (conn_blocks != 0)
+        fprintf(rout, "ORACLE-FAIL leak-conn %ld\n", conn_blocks);
+    else if (live() != 0)
         fprintf(rout, "ORACLE-FAIL leak %ld\n", live());
     report_bypass(rout);
     LIB(xmpp_ctx_free(ctx));
